@@ -3,6 +3,7 @@ package rel
 import (
 	"context"
 	"fmt"
+	"math"
 	"reflect"
 	"regexp"
 	"sort"
@@ -42,28 +43,63 @@ func (b *TupleBuilder) Put(name string, value Value) {
 func (b *TupleBuilder) Finish() Tuple {
 	m := (*frozen.MapBuilder[string, Value])(b).Finish()
 	if index, has := m.Get("@"); has && m.Count() == 2 {
-		i := index
-		switch {
-		case m.Has(StringCharAttr):
-			return NewStringCharTuple(
-				int(i.(Number).Float64()),
-				rune(m.MustGet(StringCharAttr).(Number).Float64()),
-			)
-		case m.Has(BytesByteAttr):
-			return NewBytesByteTuple(
-				int(i.(Number).Float64()),
-				byte(m.MustGet(BytesByteAttr).(Number).Float64()),
-			)
-		case m.Has(ArrayItemAttr):
-			return NewArrayItemTuple(
-				int(i.(Number).Float64()),
-				m.MustGet(ArrayItemAttr),
-			)
-		case m.Has(DictValueAttr):
-			return NewDictEntryTuple(i, m.MustGet(DictValueAttr))
+		for _, name := range []string{StringCharAttr, BytesByteAttr, ArrayItemAttr, DictValueAttr} {
+			if value, has := m.Get(name); has {
+				if t, ok := newSugarTupleStrict(index, name, value); ok {
+					return t
+				}
+			}
 		}
 	}
 	return &GenericTuple{tuple: m}
+}
+
+// newSugarTuple returns the specialised tuple for (@: at, name: value) if the
+// tuple can be represented exactly by it: sequence indices must be integers,
+// chars must be valid runes and bytes must be in the range 0-255.
+func newSugarTuple(at Value, name string, value Value) (Tuple, bool) {
+	switch name {
+	case DictValueAttr:
+		return NewDictEntryTuple(at, value), true
+	case ArrayItemAttr, StringCharAttr, BytesByteAttr:
+	default:
+		return nil, false
+	}
+	n, isNumber := at.(Number)
+	if !isNumber {
+		return nil, false
+	}
+	i, ok := n.Int()
+	if !ok {
+		return nil, false
+	}
+	if name == ArrayItemAttr {
+		return NewArrayItemTuple(i, value), true
+	}
+	if n, isNumber := value.(Number); isNumber {
+		if c, ok := n.Int(); ok {
+			if name == StringCharAttr && 0 <= c && c <= math.MaxInt32 {
+				return NewStringCharTuple(i, rune(c)), true
+			}
+			if name == BytesByteAttr && 0 <= c && c <= math.MaxUint8 {
+				return NewBytesByteTuple(i, byte(c)), true
+			}
+		}
+	}
+	return nil, false
+}
+
+// newSugarTupleStrict is newSugarTuple for tuples written out in full, which
+// must have a number as sequence index and as char/byte.
+func newSugarTupleStrict(at Value, name string, value Value) (Tuple, bool) {
+	switch name {
+	case StringCharAttr, BytesByteAttr:
+		_ = value.(Number)
+		fallthrough
+	case ArrayItemAttr:
+		_ = at.(Number)
+	}
+	return newSugarTuple(at, name, value)
 }
 
 // NewAttr returns an Attr with the given name and value.
@@ -108,21 +144,8 @@ func NewTuple(attrs ...Attr) Tuple {
 			attrs[0], attrs[1] = attrs[1], attrs[0]
 		}
 		if attrs[0].Name == "@" && strings.HasPrefix(attrs[1].Name, "@") {
-			switch attrs[1].Name {
-			case StringCharAttr:
-				return NewStringCharTuple(
-					int(attrs[0].Value.(Number).Float64()),
-					rune(attrs[1].Value.(Number).Float64()),
-				)
-			case BytesByteAttr:
-				return NewBytesByteTuple(
-					int(attrs[0].Value.(Number).Float64()),
-					byte(attrs[1].Value.(Number).Float64()),
-				)
-			case ArrayItemAttr:
-				return NewArrayItemTuple(int(attrs[0].Value.(Number).Float64()), attrs[1].Value)
-			case DictValueAttr:
-				return NewDictEntryTuple(attrs[0].Value, attrs[1].Value)
+			if t, ok := newSugarTupleStrict(attrs[0].Value, attrs[1].Name, attrs[1].Value); ok {
+				return t
 			}
 		}
 	}
